@@ -13,16 +13,32 @@ def clause_text(mask):
     return "; ".join(t for b, t in CLAUSES if mask & b) or "none"
 
 
+def same_replica_num(case):
+    """some process with several replicas whose replicas all carry the same PC_REPLICA_NUM (aliased Vars map)"""
+    for o in case.get("obs", []):
+        by = {}
+        for p in o.get("Procs", []):
+            num = [v for k, v in (p.get("Vars") or []) if k == "PC_REPLICA_NUM"]
+            by.setdefault(p.get("Name"), []).append(num[0] if num else None)
+        if any(len(v) > 1 and len(set(v)) == 1 for v in by.values()):
+            return True
+    return False
+
+
 def classify(case, mask):
     """key of the defect class of a failing case: a different violation of C16 gets a different key"""
     procs = case["procs"]
     shared = [p["key"] for p in procs if p["replicas"] > 1 and (p.get("vars") or p.get("ready") or p.get("live"))]
     negative = [p["key"] for p in procs if p["replicas"] < 0]
-    if negative and (mask & (2 | 4 | 64)) and not (mask & 8):
+    # F34: a negative count survives (clause 2) AND the entry has no replica name (clause 4)
+    if negative and (mask & 2) and (mask & 4) and not (mask & 8):
         rest = mask & ~(2 | 4 | 64)
-        if rest == 0 or (shared and rest & ~(1 | 16 | 32) == 0):
+        if rest == 0 or (shared and (rest & 1) and rest & ~(1 | 16 | 32) == 0):
             return "F34:replicas<0-not-defaulted"
-    if shared and mask and (mask & ~(1 | 16 | 32)) == 0:
+    # F4: which replica is rendered first depends on the map order, so the loads differ (clause 1) - or, when all
+    # loads happened to use the same order, all replicas of a process report the same PC_REPLICA_NUM - and only probe
+    # fields / vars are wrong
+    if shared and (mask & ~(1 | 16 | 32)) == 0 and ((mask & 1) or same_replica_num(case)):
         return "F4:replicas-share-probes-and-vars"
     return "C16:clauses-%d" % mask
 
